@@ -165,7 +165,7 @@ namespace vc
                     .u("al", al)
                     .u("mis", reinterpret_cast<std::uintptr_t>(base) % al)
                     .u("gap", gap)
-                    .b("st", false);
+                    .b("st", false).b("out", false);
                 return base;
             }
             std::size_t next_base_mod(std::size_t al) const override
